@@ -337,14 +337,17 @@ func runReadCfg(c Case, cfg vrt.Config) *vrt.Exec {
 		report("C14|blocked-until-own-context-expired|"+cls, fmt.Sprintf("%s: the consumer got no error from the library; its own 10h context expired (%s); received %v", ctxt, gotErr, got), c)
 		return x
 	}
-	slack := time.Duration(0)
+	// code that polls a dead transport notices its deadline at its next poll; the explorer grants
+	// polling threads virtual time in quanta of 100 ms: a quarter of a second is the resolution of
+	// "no later than the read timeout" here
+	slack := 250 * time.Millisecond
 	if c.Poll {
 		// the polling consumer looks once per virtual second, and a poll may miss a queued error: the
 		// non-waiting receive selects among its ready cases, one of which says "nothing ready" - one
 		// more poll per deviation of the explored schedule
-		slack = time.Duration(1+len(c.Choices)) * time.Second
+		slack += time.Duration(1+len(c.Choices)) * time.Second
 		if exploring {
-			slack = time.Duration(1+pollBound) * time.Second
+			slack = 250*time.Millisecond + time.Duration(1+pollBound)*time.Second
 		}
 	}
 	if errAt > time.Duration(readTimeout)*time.Second+slack {
